@@ -192,6 +192,7 @@ func run(c *hk.Ctx) {
 	runRequestSchedules(c, ctl)
 	mcp.VerifSetYield(nil)
 	runRaceStress(c)
+	runClientReopen(c)
 }
 
 var runNo int
